@@ -18,7 +18,10 @@ PATCHES = ('circle', 'ellipse', 'rectangle', 'polygon', 'circle_annulus', 'ellip
 
 
 def region_of(kind, rng, mag, angle):
-    r = make_region(kind, 'image', rng, mag, {}, {'color': 'red', 'linewidth': 2})
+    vis = {'color': 'red', 'linewidth': 2}
+    if kind != 'text':
+        vis['fill'] = rng.random() < 0.5      # patches take the flag, points map it to a marker fill style; a Text artist has no such notion
+    r = make_region(kind, 'image', rng, mag, {}, vis)
     if angle is not None and 'angle' in getattr(r, '_params', ()):
         unit = rng.choice((u.deg, u.rad, u.arcmin))
         r.angle = (angle * u.deg).to(unit)
